@@ -129,7 +129,12 @@ func runRace(toks []string) (string, string) {
 		})
 	case "shared-writer", "shared-writer-rotate", "mixed":
 		// the default name generator, in the current directory "out"
-		w := gowarc.NewWarcFileWriter(wopts(&gowarc.PatternNameGenerator{Directory: out})...)
+		sgen := &gowarc.PatternNameGenerator{Directory: out}
+		if custom {
+			sgen.Params = map[string]interface{}{"job": "verif"}
+			sgen.Pattern = "%{job}s-%{prefix}s%{ts}s-%04{serial}d-%{hostOrIp}s.%{ext}s"
+		}
+		w := gowarc.NewWarcFileWriter(wopts(sgen)...)
 		recs := make([][]gowarc.WarcRecord, ngo)
 		for g := 0; g < ngo; g++ {
 			for i := 0; i < 5; i++ {
@@ -159,6 +164,10 @@ func runRace(toks []string) (string, string) {
 	case "shared-generator":
 		// two file writers share one name generator
 		gen := &gowarc.PatternNameGenerator{Directory: out}
+		if custom { // custom pattern parameters are part of the shared generator
+			gen.Params = map[string]interface{}{"job": "verif", "n": 7}
+			gen.Pattern = "%{job}s-%{prefix}s%{ts}s-%04{serial}d-%{hostOrIp}s.%{ext}s"
+		}
 		w1 := gowarc.NewWarcFileWriter(wopts(gen)...)
 		w2 := gowarc.NewWarcFileWriter(wopts(gen)...)
 		var recs []gowarc.WarcRecord
